@@ -397,3 +397,8 @@ def run(ctx):
     r3_selection(ctx)
     r4_input_language(ctx)
     r5_conversion(ctx)
+    # "accepted exactly when it names a legal move": the list the input is matched against must be the legal moves (all clauses of C01)
+    from . import c01
+    import_rules(ctx, 'C14.R6-matched-against-legal-moves', c01.ALL_RULES,
+                 'an input is accepted iff it matches an element of the generated list: an illegal element makes an illegal input '
+                 'acceptable, a missing one makes a legal input rejected', floor=6)
